@@ -104,46 +104,53 @@ Record world := mkWorld {
   inbox_msg : list fmsg;
   actors : list (N * actor);
   now : N;
-  evs : list event }.
+  evs : list event;
+  closing : list N;   (* actors whose ports are closed (Stopping) while their post_stop still runs: not yet reported *)
+  gated : list N }.   (* GHOST: actors the driver stops with a held-back post_stop *)
 
 Definition set_pool_size (x : N) (w : world) : world :=
-  mkWorld x (pool w) (by_actor w) (fq w) (dset w) (drain w) (rr_last w) (avail w) (inq w) (rl w) (next_aid w) (fstatus w) (stop_req w) (held w) (inbox_sup w) (inbox_msg w) (actors w) (now w) (evs w).
+  mkWorld x (pool w) (by_actor w) (fq w) (dset w) (drain w) (rr_last w) (avail w) (inq w) (rl w) (next_aid w) (fstatus w) (stop_req w) (held w) (inbox_sup w) (inbox_msg w) (actors w) (now w) (evs w) (closing w) (gated w).
 Definition set_pool (x : list (N * wprops)) (w : world) : world :=
-  mkWorld (pool_size w) x (by_actor w) (fq w) (dset w) (drain w) (rr_last w) (avail w) (inq w) (rl w) (next_aid w) (fstatus w) (stop_req w) (held w) (inbox_sup w) (inbox_msg w) (actors w) (now w) (evs w).
+  mkWorld (pool_size w) x (by_actor w) (fq w) (dset w) (drain w) (rr_last w) (avail w) (inq w) (rl w) (next_aid w) (fstatus w) (stop_req w) (held w) (inbox_sup w) (inbox_msg w) (actors w) (now w) (evs w) (closing w) (gated w).
 Definition set_by_actor (x : list (N * N)) (w : world) : world :=
-  mkWorld (pool_size w) (pool w) x (fq w) (dset w) (drain w) (rr_last w) (avail w) (inq w) (rl w) (next_aid w) (fstatus w) (stop_req w) (held w) (inbox_sup w) (inbox_msg w) (actors w) (now w) (evs w).
+  mkWorld (pool_size w) (pool w) x (fq w) (dset w) (drain w) (rr_last w) (avail w) (inq w) (rl w) (next_aid w) (fstatus w) (stop_req w) (held w) (inbox_sup w) (inbox_msg w) (actors w) (now w) (evs w) (closing w) (gated w).
 Definition set_fq (x : list (list job)) (w : world) : world :=
-  mkWorld (pool_size w) (pool w) (by_actor w) x (dset w) (drain w) (rr_last w) (avail w) (inq w) (rl w) (next_aid w) (fstatus w) (stop_req w) (held w) (inbox_sup w) (inbox_msg w) (actors w) (now w) (evs w).
+  mkWorld (pool_size w) (pool w) (by_actor w) x (dset w) (drain w) (rr_last w) (avail w) (inq w) (rl w) (next_aid w) (fstatus w) (stop_req w) (held w) (inbox_sup w) (inbox_msg w) (actors w) (now w) (evs w) (closing w) (gated w).
 Definition set_dset (x : option (N * mode)) (w : world) : world :=
-  mkWorld (pool_size w) (pool w) (by_actor w) (fq w) x (drain w) (rr_last w) (avail w) (inq w) (rl w) (next_aid w) (fstatus w) (stop_req w) (held w) (inbox_sup w) (inbox_msg w) (actors w) (now w) (evs w).
+  mkWorld (pool_size w) (pool w) (by_actor w) (fq w) x (drain w) (rr_last w) (avail w) (inq w) (rl w) (next_aid w) (fstatus w) (stop_req w) (held w) (inbox_sup w) (inbox_msg w) (actors w) (now w) (evs w) (closing w) (gated w).
 Definition set_drain (x : dstate) (w : world) : world :=
-  mkWorld (pool_size w) (pool w) (by_actor w) (fq w) (dset w) x (rr_last w) (avail w) (inq w) (rl w) (next_aid w) (fstatus w) (stop_req w) (held w) (inbox_sup w) (inbox_msg w) (actors w) (now w) (evs w).
+  mkWorld (pool_size w) (pool w) (by_actor w) (fq w) (dset w) x (rr_last w) (avail w) (inq w) (rl w) (next_aid w) (fstatus w) (stop_req w) (held w) (inbox_sup w) (inbox_msg w) (actors w) (now w) (evs w) (closing w) (gated w).
 Definition set_rr_last (x : N) (w : world) : world :=
-  mkWorld (pool_size w) (pool w) (by_actor w) (fq w) (dset w) (drain w) x (avail w) (inq w) (rl w) (next_aid w) (fstatus w) (stop_req w) (held w) (inbox_sup w) (inbox_msg w) (actors w) (now w) (evs w).
+  mkWorld (pool_size w) (pool w) (by_actor w) (fq w) (dset w) (drain w) x (avail w) (inq w) (rl w) (next_aid w) (fstatus w) (stop_req w) (held w) (inbox_sup w) (inbox_msg w) (actors w) (now w) (evs w) (closing w) (gated w).
 Definition set_avail (x : list N) (w : world) : world :=
-  mkWorld (pool_size w) (pool w) (by_actor w) (fq w) (dset w) (drain w) (rr_last w) x (inq w) (rl w) (next_aid w) (fstatus w) (stop_req w) (held w) (inbox_sup w) (inbox_msg w) (actors w) (now w) (evs w).
+  mkWorld (pool_size w) (pool w) (by_actor w) (fq w) (dset w) (drain w) (rr_last w) x (inq w) (rl w) (next_aid w) (fstatus w) (stop_req w) (held w) (inbox_sup w) (inbox_msg w) (actors w) (now w) (evs w) (closing w) (gated w).
 Definition set_inq (x : list N) (w : world) : world :=
-  mkWorld (pool_size w) (pool w) (by_actor w) (fq w) (dset w) (drain w) (rr_last w) (avail w) x (rl w) (next_aid w) (fstatus w) (stop_req w) (held w) (inbox_sup w) (inbox_msg w) (actors w) (now w) (evs w).
+  mkWorld (pool_size w) (pool w) (by_actor w) (fq w) (dset w) (drain w) (rr_last w) (avail w) x (rl w) (next_aid w) (fstatus w) (stop_req w) (held w) (inbox_sup w) (inbox_msg w) (actors w) (now w) (evs w) (closing w) (gated w).
 Definition set_rl (x : list bool) (w : world) : world :=
-  mkWorld (pool_size w) (pool w) (by_actor w) (fq w) (dset w) (drain w) (rr_last w) (avail w) (inq w) x (next_aid w) (fstatus w) (stop_req w) (held w) (inbox_sup w) (inbox_msg w) (actors w) (now w) (evs w).
+  mkWorld (pool_size w) (pool w) (by_actor w) (fq w) (dset w) (drain w) (rr_last w) (avail w) (inq w) x (next_aid w) (fstatus w) (stop_req w) (held w) (inbox_sup w) (inbox_msg w) (actors w) (now w) (evs w) (closing w) (gated w).
 Definition set_next_aid (x : N) (w : world) : world :=
-  mkWorld (pool_size w) (pool w) (by_actor w) (fq w) (dset w) (drain w) (rr_last w) (avail w) (inq w) (rl w) x (fstatus w) (stop_req w) (held w) (inbox_sup w) (inbox_msg w) (actors w) (now w) (evs w).
+  mkWorld (pool_size w) (pool w) (by_actor w) (fq w) (dset w) (drain w) (rr_last w) (avail w) (inq w) (rl w) x (fstatus w) (stop_req w) (held w) (inbox_sup w) (inbox_msg w) (actors w) (now w) (evs w) (closing w) (gated w).
 Definition set_fstatus (x : fstat) (w : world) : world :=
-  mkWorld (pool_size w) (pool w) (by_actor w) (fq w) (dset w) (drain w) (rr_last w) (avail w) (inq w) (rl w) (next_aid w) x (stop_req w) (held w) (inbox_sup w) (inbox_msg w) (actors w) (now w) (evs w).
+  mkWorld (pool_size w) (pool w) (by_actor w) (fq w) (dset w) (drain w) (rr_last w) (avail w) (inq w) (rl w) (next_aid w) x (stop_req w) (held w) (inbox_sup w) (inbox_msg w) (actors w) (now w) (evs w) (closing w) (gated w).
 Definition set_stop_req (x : bool) (w : world) : world :=
-  mkWorld (pool_size w) (pool w) (by_actor w) (fq w) (dset w) (drain w) (rr_last w) (avail w) (inq w) (rl w) (next_aid w) (fstatus w) x (held w) (inbox_sup w) (inbox_msg w) (actors w) (now w) (evs w).
+  mkWorld (pool_size w) (pool w) (by_actor w) (fq w) (dset w) (drain w) (rr_last w) (avail w) (inq w) (rl w) (next_aid w) (fstatus w) x (held w) (inbox_sup w) (inbox_msg w) (actors w) (now w) (evs w) (closing w) (gated w).
 Definition set_held (x : bool) (w : world) : world :=
-  mkWorld (pool_size w) (pool w) (by_actor w) (fq w) (dset w) (drain w) (rr_last w) (avail w) (inq w) (rl w) (next_aid w) (fstatus w) (stop_req w) x (inbox_sup w) (inbox_msg w) (actors w) (now w) (evs w).
+  mkWorld (pool_size w) (pool w) (by_actor w) (fq w) (dset w) (drain w) (rr_last w) (avail w) (inq w) (rl w) (next_aid w) (fstatus w) (stop_req w) x (inbox_sup w) (inbox_msg w) (actors w) (now w) (evs w) (closing w) (gated w).
 Definition set_inbox_sup (x : list N) (w : world) : world :=
-  mkWorld (pool_size w) (pool w) (by_actor w) (fq w) (dset w) (drain w) (rr_last w) (avail w) (inq w) (rl w) (next_aid w) (fstatus w) (stop_req w) (held w) x (inbox_msg w) (actors w) (now w) (evs w).
+  mkWorld (pool_size w) (pool w) (by_actor w) (fq w) (dset w) (drain w) (rr_last w) (avail w) (inq w) (rl w) (next_aid w) (fstatus w) (stop_req w) (held w) x (inbox_msg w) (actors w) (now w) (evs w) (closing w) (gated w).
 Definition set_inbox_msg (x : list fmsg) (w : world) : world :=
-  mkWorld (pool_size w) (pool w) (by_actor w) (fq w) (dset w) (drain w) (rr_last w) (avail w) (inq w) (rl w) (next_aid w) (fstatus w) (stop_req w) (held w) (inbox_sup w) x (actors w) (now w) (evs w).
+  mkWorld (pool_size w) (pool w) (by_actor w) (fq w) (dset w) (drain w) (rr_last w) (avail w) (inq w) (rl w) (next_aid w) (fstatus w) (stop_req w) (held w) (inbox_sup w) x (actors w) (now w) (evs w) (closing w) (gated w).
 Definition set_actors (x : list (N * actor)) (w : world) : world :=
-  mkWorld (pool_size w) (pool w) (by_actor w) (fq w) (dset w) (drain w) (rr_last w) (avail w) (inq w) (rl w) (next_aid w) (fstatus w) (stop_req w) (held w) (inbox_sup w) (inbox_msg w) x (now w) (evs w).
+  mkWorld (pool_size w) (pool w) (by_actor w) (fq w) (dset w) (drain w) (rr_last w) (avail w) (inq w) (rl w) (next_aid w) (fstatus w) (stop_req w) (held w) (inbox_sup w) (inbox_msg w) x (now w) (evs w) (closing w) (gated w).
 Definition set_now (x : N) (w : world) : world :=
-  mkWorld (pool_size w) (pool w) (by_actor w) (fq w) (dset w) (drain w) (rr_last w) (avail w) (inq w) (rl w) (next_aid w) (fstatus w) (stop_req w) (held w) (inbox_sup w) (inbox_msg w) (actors w) x (evs w).
+  mkWorld (pool_size w) (pool w) (by_actor w) (fq w) (dset w) (drain w) (rr_last w) (avail w) (inq w) (rl w) (next_aid w) (fstatus w) (stop_req w) (held w) (inbox_sup w) (inbox_msg w) (actors w) x (evs w) (closing w) (gated w).
 Definition set_evs (x : list event) (w : world) : world :=
-  mkWorld (pool_size w) (pool w) (by_actor w) (fq w) (dset w) (drain w) (rr_last w) (avail w) (inq w) (rl w) (next_aid w) (fstatus w) (stop_req w) (held w) (inbox_sup w) (inbox_msg w) (actors w) (now w) x.
+  mkWorld (pool_size w) (pool w) (by_actor w) (fq w) (dset w) (drain w) (rr_last w) (avail w) (inq w) (rl w) (next_aid w) (fstatus w) (stop_req w) (held w) (inbox_sup w) (inbox_msg w) (actors w) (now w) x (closing w) (gated w).
+
+Definition set_closing (x : list N) (w : world) : world :=
+  mkWorld (pool_size w) (pool w) (by_actor w) (fq w) (dset w) (drain w) (rr_last w) (avail w) (inq w) (rl w) (next_aid w) (fstatus w) (stop_req w) (held w) (inbox_sup w) (inbox_msg w) (actors w) (now w) (evs w) x (gated w).
+Definition set_gated (x : list N) (w : world) : world :=
+  mkWorld (pool_size w) (pool w) (by_actor w) (fq w) (dset w) (drain w) (rr_last w) (avail w) (inq w) (rl w) (next_aid w) (fstatus w) (stop_req w) (held w) (inbox_sup w) (inbox_msg w) (actors w) (now w) (evs w) (closing w) x.
 
 Definition emit (e : event) (w : world) : world := set_evs (e :: evs w) w.
 
@@ -308,6 +315,17 @@ Fixpoint shed_oldest (fuel : nat) (t limit : N) (q : list job) (out : list event
       else (q, out)
   end.
 
+(* the tail of enqueue_job: with DiscardMode::Oldest the queue is held to the limit -- also after a
+   hand-over that failed because the worker actor is stopping (fix acf308c) *)
+Definition shed_after (t : N) (x : wctx) : wctx :=
+  let '(p, acts, out) := x in
+  match w_dset p with
+  | Some (limit, Oldest) =>
+      let '(q', out') := shed_oldest (S (length (w_queue p))) t limit (w_queue p) out in
+      (set_w_queue q' p, acts, out')
+  | _ => x
+  end.
+
 Definition enqueue_job (t : N) (x : wctx) (j : job) : wctx :=
   let '(p, acts, out) := x in
   let shed_newest :=
@@ -319,21 +337,15 @@ Definition enqueue_job (t : N) (x : wctx) (j : job) : wctx :=
   else
     let out := accept_ev j out in
     let j := clear_port j in
-    match w_curr p with
-    | [] =>
-        match next_non_expired t (w_queue p) out with
-        | (Some older, q', out') => dispatch_job (set_w_queue (q' ++ [j]) p, acts, out') older
-        | (None, q', out') => dispatch_job (set_w_queue q' p, acts, out') j
-        end
-    | _ :: _ =>
-        let q := w_queue p ++ [j] in
-        match w_dset p with
-        | Some (limit, Oldest) =>
-            let '(q', out') := shed_oldest (S (length q)) t limit q out in
-            (set_w_queue q' p, acts, out')
-        | _ => (set_w_queue q p, acts, out)
-        end
-    end.
+    shed_after t
+      match w_curr p with
+      | [] =>
+          match next_non_expired t (w_queue p) out with
+          | (Some older, q', out') => dispatch_job (set_w_queue (q' ++ [j]) p, acts, out') older
+          | (None, q', out') => dispatch_job (set_w_queue q' p, acts, out') j
+          end
+      | _ :: _ => (set_w_queue (w_queue p ++ [j]) p, acts, out)
+      end.
 
 (* worker_complete: only a key found in curr_jobs advances the queue *)
 Definition worker_complete (t : N) (x : wctx) (k : N) : wctx :=
@@ -798,6 +810,9 @@ Inductive label :=
 | LWComplete (a : N)        (* its handler returns Ok(key) *)
 | LWDie (a : N)             (* killed, or its handler failed / panicked *)
 | LWExit (a : N)            (* a stop-requested actor that runs nothing exits *)
+| LWStopExt (a : N)         (* somebody outside the factory stops worker actor a gracefully; its post_stop will be slow *)
+| LWClose (a : N)           (* such an actor leaves its loop: status Stopping, ports closed, post_stop running, supervisor not yet told *)
+| LWClosed (a : N)          (* its post_stop returns: the supervisor is told *)
 | LFinalize.                (* all workers gone: post_stop returns, the factory state is dropped *)
 
 Definition running_now (w : world) : bool :=
@@ -834,7 +849,8 @@ Definition factory_step (c : config) (w : world) : world :=
   else w.
 
 Definition all_workers_gone (w : world) : bool :=
-  forallb (fun e => negb (a_alive (snd e))) (actors w).
+  forallb (fun e => negb (a_alive (snd e))) (actors w)
+  && match closing w with [] => true | _ => false end.
 
 Definition inbox_jobs (l : list fmsg) : list job :=
   flat_map (fun m => match m with MDispatch j => [j] | _ => [] end) l.
@@ -893,6 +909,28 @@ Definition w_exit (aid : N) (w : world) : world :=
   | None => w
   end.
 
+(* the exiting-worker window: like w_exit, but the supervision event is held back *)
+Definition w_close (aid : N) (w : world) : world :=
+  match lookup aid (actors w) with
+  | Some a =>
+      match a_alive a, a_stop a, a_run a with
+      | true, true, None =>
+          let w' := actor_exit aid (CStopExit aid) w in
+          set_closing (closing w ++ [aid]) (set_inbox_sup (inbox_sup w) w')
+      | _, _, _ => w
+      end
+  | None => w
+  end.
+
+Definition w_closed (aid : N) (w : world) : world :=
+  match lookup aid (actors w) with
+  | Some a =>
+      if memN aid (closing w) && negb (a_alive a)
+      then set_closing (removeN aid (closing w)) (set_inbox_sup (inbox_sup w ++ [aid]) w)
+      else w
+  | None => w
+  end.
+
 Definition step (c : config) (w : world) (l : label) : world :=
   match l with
   | LSend s => send_msg s w
@@ -911,13 +949,16 @@ Definition step (c : config) (w : world) (l : label) : world :=
   | LWComplete a => w_complete a w
   | LWDie a => w_die a w
   | LWExit a => w_exit a w
+  | LWStopExt a => set_gated (addN a (gated w)) (stop_actor a w)
+  | LWClose a => w_close a w
+  | LWClosed a => w_closed a w
   | LFinalize => finalize w
   end.
 
 Definition run (c : config) (w : world) (ls : list label) : world := fold_left (step c) ls w.
 
 Definition init0 (d : option (N * mode)) (rls : list bool) : world :=
-  mkWorld 0 [] [] [] d NotDraining 0 [] [] rls 0 FRunning false false [] [] [] 0 [].
+  mkWorld 0 [] [] [] d NotDraining 0 [] [] rls 0 FRunning false false [] [] [] 0 [] [] [].
 
 Fixpoint spawn_initial (c : config) (n : nat) (wid : N) (w : world) : world :=
   match n with O => w | S n' => spawn_initial c n' (wid + 1) (spawn_worker c wid w) end.
